@@ -1,4 +1,4 @@
-(** Boolean classifiers of the known findings of C15 / C16 (one per `known:` line of
+(** Boolean classifiers of the known findings of C16 (one per `known:` line of
     /verif/known-findings.txt).  The property theorems exclude exactly these classes; the
     run-time checks evaluate the same functions.
     C15 has no known finding left: its former class prefix-trailing-slash (S3 prefix given
@@ -6,21 +6,6 @@
     s3.rs:741, modelled by S3.client_prefix); its classifier was removed. *)
 From Rocfl Require Import Base.Bytes Generated.Consts Model.S3.
 Open Scope N_scope.
-
-(** C15 (proposed class s3-object-root-unchecked): the object root of an object that is being
-    created is nested within the root of an existing object, contains one, lies in the storage
-    root's extensions directory or has a ".." component.  The file-system store refuses these
-    (FsOcflStore::validate_object_root, fs.rs:158-204, and the lookup of `new` which finds a
-    directory that is no object root); S3OcflStore::write_new_object only tests that nothing
-    is stored below the root (s3.rs:471) and accepts them.  [existing] = the object roots in
-    the bucket (relative to the repository prefix), [root] = the new object's root.
-    No theorem of Props/C15.v depends on this class: they are about keys, listings and purge,
-    not about which roots a store accepts. *)
-Definition c15_s3_object_root_unchecked (existing : list bytes) (root : bytes) : bool :=
-  let segs := segments root in
-  existsb (fun sg => bytes_eqb sg (b "..")) segs
-  || match segs with sg :: _ => bytes_eqb sg K_EXTENSIONS_DIR | [] => false end
-  || existsb (fun r => starts_with (r ++ [slash]) root || starts_with (root ++ [slash]) r) existing.
 
 (** C16: the fault hits the PUT of the root sidecar or a later request (declaration swap of an
     upgrade) of write_new_version.  do_with_rollback then deletes the root inventory.json that
